@@ -465,6 +465,44 @@ def place_root_lid(n):
             return None, list(reversed(fields))
 
 
+def binding_origins(fn):
+    """{binding lid: ([(pattern def path, field name or index), ...] outermost first, scrutinee / initialiser node)}
+    for every binding introduced by a let, if-let / while-let, match arm or for loop of fn (closures included)."""
+    out = {}
+
+    def rec(p, chain, scrut):
+        if not isinstance(p, dict):
+            return
+        k = p.get("k")
+        if k == "Binding":
+            out[p["lid"]] = (list(chain), scrut)
+            if "sub" in p:
+                rec(p["sub"], chain, scrut)
+        elif k in ("Ref", "Deref", "Box"):
+            rec(p.get("p"), chain, scrut)
+        elif k == "TupleStruct":
+            for i, q in enumerate(p.get("pats") or []):
+                rec(q, chain + [(p.get("def"), i)], scrut)
+        elif k == "Struct":
+            for f in p.get("fields") or []:
+                rec(f["p"], chain + [(p.get("def"), f["f"])], scrut)
+        elif k in ("Tuple", "Slice", "Or"):
+            for i, q in enumerate(p.get("pats") or []):
+                rec(q, chain + [(k, i)] if k != "Or" else chain, scrut)
+    if fn.body is None:
+        return out
+    for st in walk_lets(fn.body):
+        rec(st.get("pat"), [], st.get("init"))
+    for n in walk_fn(fn):
+        k = n.get("k")
+        if k == "LetExpr":
+            rec(n["pat"], [], n["init"])
+        elif k == "Match":
+            for arm in n["arms"]:
+                rec(arm["pat"], [], n["e"])
+    return out
+
+
 def param_lids(fn):
     """{param name: (lid, type)} for simple binding parameters"""
     out = {}
